@@ -71,6 +71,60 @@ INTENDED_TRUNCATION = {
 }
 
 
+def lease_bounds(ctx):
+    """V5 (also evaluated by C01 and C10, whose clauses rest on it: an unbounded lease time wraps the 32-bit expiry column into the
+    past, and the address is given to a second client while the first was told it holds it)"""
+    P = ctx.P
+    # V5: the lease-time bounds handed to the allocator are bounded themselves
+    # (the allocator adds the clamped lease time to the clock in 64 bits and narrows the sum to the 32-bit expiry column)
+    n = 0
+    seen_resp = 0
+    for b in P.bodies.values():
+        if not b.id.startswith("erbium::dhcp::") or "::test" in b.id:
+            continue
+        T = None
+        for bb, idx, st in b.stmts():
+            pl = st["p"]
+            rv = st.get("rv")
+            if rv is None:
+                continue
+            fld = next((x[1:] for x in pl[1:] if isinstance(x, str) and x in (".minlease", ".maxlease")), None)
+            vals = []
+            if fld and "dhcp::Response" in b.local_ty(pl[0]):
+                T = T or terms(P, b)
+                vals.append((fld, norm(T.rvalue(rv, bb, idx))))
+            if rv["k"] == "agg" and str(rv.get("adt", rv.get("def", ""))).endswith("dhcp::Response"):
+                T = T or terms(P, b)
+                seen_resp += 1
+                f = dict(norm(T.rvalue(rv, bb, idx))[3])
+                vals += [(k, norm(f[k])) for k in ("minlease", "maxlease") if k in f]
+            for fld, v in vals:
+                n += 1
+
+                def bounded(v, depth=0):
+                    v = norm(v)
+                    if depth > 6:
+                        return False
+                    if v[0] == "phi":
+                        return all(bounded(x, depth + 1) for x in v[1])
+                    if v[0] == "agg" and v[2] == "None":
+                        return True
+                    if v[0] == "field" and v[2] in ("minlease", "maxlease") and norm(v[1])[0] == "call" and str(norm(v[1])[1]).endswith("Default>::default"):
+                        return True
+                    if v[0] == "agg" and v[2] == "Some":
+                        return bounded(v[3][0][1], depth + 1)
+                    if v[0] == "const":
+                        return True
+                    if v[0] == "call" and str(v[1]).rsplit("::", 1)[-1] in ("min", "clamp") and any(norm(a)[0] == "const" for a in v[2]):
+                        return True
+                    return False
+                ctx.check(bounded(v), "V5", "lease-time-bound-is-bounded:%s" % fld, ctx.where(b, st["sp"]),
+                          "Response.%s reaches the allocator as a bound of the lease time, which is added to the clock and narrowed to "
+                          "32 bits: it must be absent, a constant, or clamped to a constant (is %s)" % (fld, show(v)[:120]))
+    if ctx.config in ("default", "dhcp"):
+        ctx.floor("V5", "constructions of the DHCP response under construction", seen_resp, 1)
+
+
 def narrowing_casts(ctx, cg):
     """V6: a number the operator wrote is never narrowed with `as` unless its range is known to fit: `4294967296s` must be an
     error or a saturated value, not 0 s"""
@@ -226,51 +280,4 @@ def validation_rules(ctx, cg):
                           "edge of `len(reply) > N` with N <= 65507")
     if ctx.config in ("default", "dhcp"):
         ctx.floor("V4", "DHCP frame constructions", n, 1)
-    # ---------------- V5: the lease-time bounds handed to the allocator are bounded themselves
-    # (the allocator adds the clamped lease time to the clock in 64 bits and narrows the sum to the 32-bit expiry column)
-    n = 0
-    seen_resp = 0
-    for b in P.bodies.values():
-        if not b.id.startswith("erbium::dhcp::") or "::test" in b.id:
-            continue
-        T = None
-        for bb, idx, st in b.stmts():
-            pl = st["p"]
-            rv = st.get("rv")
-            if rv is None:
-                continue
-            fld = next((x[1:] for x in pl[1:] if isinstance(x, str) and x in (".minlease", ".maxlease")), None)
-            vals = []
-            if fld and "dhcp::Response" in b.local_ty(pl[0]):
-                T = T or terms(P, b)
-                vals.append((fld, norm(T.rvalue(rv, bb, idx))))
-            if rv["k"] == "agg" and str(rv.get("adt", rv.get("def", ""))).endswith("dhcp::Response"):
-                T = T or terms(P, b)
-                seen_resp += 1
-                f = dict(norm(T.rvalue(rv, bb, idx))[3])
-                vals += [(k, norm(f[k])) for k in ("minlease", "maxlease") if k in f]
-            for fld, v in vals:
-                n += 1
-
-                def bounded(v, depth=0):
-                    v = norm(v)
-                    if depth > 6:
-                        return False
-                    if v[0] == "phi":
-                        return all(bounded(x, depth + 1) for x in v[1])
-                    if v[0] == "agg" and v[2] == "None":
-                        return True
-                    if v[0] == "field" and v[2] in ("minlease", "maxlease") and norm(v[1])[0] == "call" and str(norm(v[1])[1]).endswith("Default>::default"):
-                        return True
-                    if v[0] == "agg" and v[2] == "Some":
-                        return bounded(v[3][0][1], depth + 1)
-                    if v[0] == "const":
-                        return True
-                    if v[0] == "call" and str(v[1]).rsplit("::", 1)[-1] in ("min", "clamp") and any(norm(a)[0] == "const" for a in v[2]):
-                        return True
-                    return False
-                ctx.check(bounded(v), "V5", "lease-time-bound-is-bounded:%s" % fld, ctx.where(b, st["sp"]),
-                          "Response.%s reaches the allocator as a bound of the lease time, which is added to the clock and narrowed to "
-                          "32 bits: it must be absent, a constant, or clamped to a constant (is %s)" % (fld, show(v)[:120]))
-    if ctx.config in ("default", "dhcp"):
-        ctx.floor("V5", "constructions of the DHCP response under construction", seen_resp, 1)
+    lease_bounds(ctx)
